@@ -140,8 +140,27 @@ def run(tier, seed):
                     plain = q.stdout
                 out.append((kind, open(o, "rb").read() if os.path.exists(o) else None, p.returncode, plain))
             return out
+        # the same through a path with directories in it (the assets sit next to the document, not in the working directory)
+        nest = os.path.join(wd, "nest", "sub"); os.makedirs(nest)
+        for fn in ("small.png", "big.png", "huge.png", "style.css"): shutil.copy(os.path.join(wd, fn), os.path.join(nest, fn))
+        nsel = [s_ for s_ in csel if ".png" in s_ and "{{" not in s_][:6]
+        def one_nested(a):
+            i, src = a
+            f = os.path.join(nest, "n%d.txt" % i); open(f, "w").write(src); out = []
+            for kind in ("epub", "odt", "bundlezip", "itmz"):
+                o = os.path.join(wd, "n%d.%s" % (i, kind))
+                p = subprocess.run([cli, "-t", kind, "-o", o, os.path.join("nest", "sub", "n%d.txt" % i)], stdout=subprocess.PIPE, stderr=subprocess.PIPE, env=san_env(os.path.join(wd, "clin%d" % i)), timeout=60, cwd=wd)
+                out.append((kind, open(o, "rb").read() if os.path.exists(o) else None, p.returncode, None))
+            return out
+        os.rename(os.path.join(wd, "small.png"), os.path.join(wd, "small.png.away")); os.rename(os.path.join(wd, "big.png"), os.path.join(wd, "big.png.away")); os.rename(os.path.join(wd, "huge.png"), os.path.join(wd, "huge.png.away"))
+        try:
+            with concurrent.futures.ThreadPoolExecutor(NCPU) as ex:
+                nouts = list(ex.map(one_nested, list(enumerate(nsel))))
+        finally:
+            for fn in ("small.png", "big.png", "huge.png"): os.rename(os.path.join(wd, fn + ".away"), os.path.join(wd, fn))
         with concurrent.futures.ThreadPoolExecutor(NCPU) as ex:
             couts = list(ex.map(one, list(enumerate(csel))))
+        csel = csel + nsel; couts = couts + nouts
         for src, outs in zip(csel, couts):
             trace.append(dict(e="reset"))
             for kind, data, rc, plain in outs:
